@@ -98,6 +98,8 @@ function childTypes(env, ts, key, isIndex, depth = 0) {
   return out.filter(Boolean);
 }
 function exoticRebuilt(data, input, env, types, depth = 0) {
+  // (without the declared type at hand - probes, bulk values - nothing is attributed to this finding)
+  if (!env || !types) return false;
   if (depth > 50 || data === input || data === null || input === null || typeof data !== "object" || typeof input !== "object") return false;
   if (Array.isArray(input)) return Array.isArray(data) && data.some((x, i) => exoticRebuilt(x, input[i], env, env && types ? childTypes(env, types, i, true) : null, depth + 1));
   if (![Object.prototype, null].includes(Object.getPrototypeOf(input))) {
@@ -307,6 +309,10 @@ export async function run(ctx) {
       { id: "sorted-keys-named-like-prototype-members", text: "type X = Record<string, any>;", values: [{ constructor: {}, toString: 1, b: 2 }, { hasOwnProperty: null }] },
       { id: "optional-key-named-like-a-prototype-member", text: "type X = { toString?: string; a: number };", values: [{ a: 1 }, Object.assign(Object.create(null), { a: 1 }), { a: 1, toString: "s" }] },
       { id: "built-in-leaf-kept-by-one-union-member", text: 'type D = { t?: number };\ntype X = { items: D | any; n: number } | { tag: "c"; items: Uint32Array } | { tag: "d"; items: Date | D };', values: [{ items: new Uint32Array(2), n: 1, tag: "c" }, { items: new Date(0), n: 1, tag: "d" }, { items: new Map([["k", 1]]), n: 2 }] },
+      { id: "intersection-that-is-a-map", text: "type X = Map<string, { a: number }> & Map<string, { b: string }>;", values: [new Map([["k1", { a: 1, b: "x" }]]), new Map()] },
+      { id: "intersection-that-is-a-set", text: "type X = Set<{ a: number }> & Set<{ b?: string }>;", values: [new Set([{ a: 1, b: "x" }]), new Set()] },
+      { id: "intersection-that-is-an-array", text: "type X = { a: number }[] & { b?: string }[];", values: [[{ a: 1, b: "x" }, { a: 2 }], []] },
+      { id: "intersection-of-named-maps", text: "type M1 = Map<string, { a: number }>;\ntype M2 = Map<string, { b?: 1 }>;\ntype X = { m: M1 & M2; l: (M1 & M2)[] };", values: [{ m: new Map([["k", { a: 1, b: 1 }]]), l: [new Map([["z", { a: 2 }]])] }] },
       { id: "intersection-of-maps", text: "type X = { m: Map<string, { a: number }> } & { m: Map<string, { b: number }> };", values: [{ m: new Map([["k", { a: 1, b: 2 }]]) }] },
     ];
     for (const p of PROBES) {
